@@ -25,6 +25,8 @@ REPO_SRC = {
     "epoch": ["src/thread/id_manager.cpp", "src/thread/epoch_manager.cpp", "src/thread/epoch_guard.cpp",
               "src/thread/component/epoch.cpp"],
     "zipf": ["src/random/zipf.cpp"],
+    "all": ["src/lock/pessimistic_lock.cpp", "src/lock/optimistic_lock.cpp", "src/lock/mcs_lock.cpp", "src/thread/id_manager.cpp",
+            "src/thread/epoch_manager.cpp", "src/thread/epoch_guard.cpp", "src/thread/component/epoch.cpp", "src/random/zipf.cpp"],
 }
 
 
